@@ -399,6 +399,24 @@ def run(tier, seed):
                 records.append({"fn": "sonify." + fname, "names": [], "_desc": {"order": str([variants[i][0] for i in order]), "function": nm,
                                                                               "->": repr(out[1])[:120]},
                                 "pre": [], "post": [], "key": interner_k(key), "out": interner_o(digest(out)), "n": 1})
+    # the same pool of calls in fresh interpreters under different string-hash seeds (set / dict iteration order must not matter)
+    import os
+    import subprocess
+    import sys as _sys
+    hs_calls = 0
+    for hs in ("0", "1", "4242") + (("31337", "7") if thorough else ()):
+        env = dict(os.environ, PYTHONHASHSEED=hs, PYTHONPATH=os.path.dirname(os.path.dirname(os.path.dirname(os.path.abspath(__file__)))))
+        p_ = subprocess.run([_sys.executable, "-m", "harness.hashseed_probe", str(seed)], env=env, stdout=subprocess.PIPE, stderr=subprocess.PIPE,
+                            text=True, timeout=1800, cwd=env["PYTHONPATH"])
+        line = [l for l in p_.stdout.splitlines() if l.startswith("PROBE")]
+        if p_.returncode != 0 or not line:
+            raise Machinery("hash-seed probe failed: " + p_.stderr[-400:])
+        for call_id, dg in json.loads(line[0][5:]).items():
+            hs_calls += 1
+            key = hashlib.md5(("hashseed:" + call_id).encode()).digest()
+            records.append({"fn": call_id.split("/")[0] + (".evaluate" if "/" in call_id and "." not in call_id.split("/")[0] else ""), "names": [],
+                            "_desc": {"call": call_id, "PYTHONHASHSEED": hs, "->": dg}, "pre": [], "post": [],
+                            "key": interner_k(key), "out": interner_o(bytes.fromhex(dg)), "n": 1})
     me = import_mir_eval()
     groups = {}
     for idx, r in enumerate(records):
@@ -411,6 +429,7 @@ def run(tier, seed):
     ev.cov["histories_executed"] = n_hist
     ev.cov["repository_fixture_pairs_in_histories"] = n_real
     ev.cov["fresh_state_history_calls"] = fresh
+    ev.cov["calls_repeated_under_other_hash_seeds"] = hs_calls
     ev.cov["recorded_events_total"] = stats["events"]
     ev.cov["distinct_call_records"] = len(records)
     ev.cov["call_groups_with_repeats"] = sum(1 for m in groups.values() if len(m) > 1 or records[m[0] - 1]["n"] > 1)
